@@ -586,10 +586,12 @@ class Dataset:
         if not isinstance(other, Dataset):
             return NotImplemented
 
-        self_str_rankings: List[str] = [str(ranking).strip().replace(" ", "") for ranking in self.rankings]
-        other_str_rankings: List[str] = [str(ranking).strip().replace(" ", "") for ranking in other.rankings]
+        # a ranking is compared as the sequence of its buckets, each bucket as a set: the textual form of a set
+        # depends on the order in which its members were inserted, and ignoring spaces confuses distinct names
+        self_rankings = [tuple(frozenset(bucket) for bucket in ranking) for ranking in self.rankings]
+        other_rankings = [tuple(frozenset(bucket) for bucket in ranking) for ranking in other.rankings]
 
-        return Counter(self_str_rankings) == Counter(other_str_rankings)
+        return Counter(self_rankings) == Counter(other_rankings)
 
 
 class DatasetSelector:
